@@ -132,7 +132,9 @@ type gctx struct {
 	inline   bool // inline nested objects / oneofs / enums, optional and required marks
 }
 
-var keywordNames = []string{"option", "optional", "repeated", "message", "enum", "oneof", "string", "bool", "int32", "bytes", "stream", "map", "service"}
+// ("service" is not in the list: object service collides with the sub-package <pkg>.service, a compile error)
+var keywordNames = []string{"option", "optional", "repeated", "message", "enum", "oneof", "string", "bool", "int32", "bytes", "stream", "map",
+	"group", "extend", "reserved", "required", "extensions", "double"}
 
 var descPool = []string{"Plain words.", "With \"double quotes\" inside", "back\\slash and 'single'", "unicode é ü 漢字 😀", "slashes // and /* stars */", "colon: semi; brace { } [ ]",
 	"ends with backslash \\", "percent %s %d and tab-free", "a = b, c <d> &e", "x"}
